@@ -2,8 +2,8 @@
 From PV Require Export Model.ComponentsX Model.EnginesX Model.SelectX Model.SimulatorX.
 From PV Require Model.RemoteJob.   (* not exported: its short names (step, run, status, ...) stay qualified *)
 From PV Require Export Model.LocalJobX.
-From PV Require Export Model.ComponentsX Model.DetectorX.
-From PV Require Export Model.ComponentsX Model.CodecX.
+From PV Require Export Model.DetectorX.
+From PV Require Export Model.CodecX.
 From PV Require Export Model.PayloadX.
 From PV Require Export Model.JobGroupX.
 
@@ -17,11 +17,11 @@ Definition dispatch (f : Z) (x : sx) : sx :=
   (* 1700 = the code as it is now (both C17 repairs are in /repo: fix commits 3528201e, a6e53956);
      1703 = the code before the repairs (kept for the _refuted theorems and their witnesses) *)
   | 1700 => RemoteJob.x_rj_patch x | 1701 => RemoteJob.x_rj_patch x | 1702 => RemoteJob.x_rj_spec x | 1703 => RemoteJob.x_rj_code x
-  | 1800 => x_localjob_run x | 1801 => x_handle_params x
+  | 1800 => x_localjob_run x | 1801 => LocalJobX.x_handle_params x
   | 800 => x_cond x | 801 => x_detect x | 802 => x_mk_detector x | 803 => x_tree_leaves x
   | 804 => x_detection_type x | 805 => x_check_heralds x | 806 => x_simulate x | 807 => x_closed x
   | 1500 => x_sf x | 1501 => x_codec x
-  | 1600 => x_scenario x | 1601 => x_handle_params x
+  | 1600 => x_scenario x | 1601 => PayloadX.x_handle_params x
   | 1900 => x_jobgroup_run x
   | _ => L []
   end%Z.
